@@ -561,6 +561,44 @@ func bigWire() []byte {
 	return e.b
 }
 
+// chainWire: an uncompressed message whose d answer records have owner names that each extend the previous one by a
+// label (c.b.a under b.a under a): a compressing encoder writes each as one label and a pointer to the previous name,
+// so reading the last name means following d-1 pointers (+1 to the question)
+func chainWire(d int) []byte {
+	e := &enc{offs: map[string]int{}}
+	e.u16(rng.Intn(65536))
+	e.u16(0x8180)
+	e.u16(1)
+	e.u16(d)
+	e.u16(0)
+	e.u16(0)
+	nm := []string{"chain", "test"}
+	e.name(nm, false)
+	e.u16(1)
+	e.u16(1)
+	for i := 0; i < d; i++ {
+		nm = append([]string{fmt.Sprintf("l%d", i)}, nm...)
+		e.name(nm, false)
+		e.u16(1)
+		e.u16(1)
+		e.u32(60)
+		e.u16(4)
+		e.b = append(e.b, 10, 3, 0, byte(i))
+	}
+	return e.b
+}
+
+// ptrChainWire: a question whose name is k pointers in a row, each to the next, then a label: around the decoder's
+// bound on followed pointers
+func ptrChainWire(k int) []byte {
+	b := []byte{0, byte(k), 0x01, 0x00, 0, 1, 0, 0, 0, 0, 0, 0}
+	for i := 0; i < k; i++ {
+		t := 12 + 2*(i+1)
+		b = append(b, 0xC0|byte(t>>8), byte(t))
+	}
+	return append(b, 1, 'a', 0, 0, 1, 0, 1)
+}
+
 // hugeWire: an accepted message (below 64 KiB) whose re-encoding - with the encoder's own compression - is larger than
 // 64 KiB: the owner names of its late records are pointers into the RDATA of an uninterpreted record, which no
 // encoder reproduces; each of them is written out in full when the message is packed again. The last name is used by
@@ -732,6 +770,7 @@ func main() {
 	mal := flag.Int("mal", 0, "mutated wire images (decode only)")
 	ownPath := flag.String("own", "", "ownership trace (pool hook events)")
 	big := flag.Int("big", 0, "messages larger than 16 KiB with late names reused")
+	chain := flag.Int("chain", 0, "messages whose names form a chain of suffixes (2 to 41 deep)")
 	huge := flag.Int("huge", 0, "accepted messages whose compressed re-encoding exceeds 64 KiB")
 	lim := flag.Int("lim", 0, "size-limited packs")
 	conc := flag.Int("conc", 0, "milliseconds of concurrent decoding / holding / re-encoding / releasing")
@@ -801,6 +840,24 @@ func main() {
 			doPack(m, false, 0)
 		}
 		dnsmsg.ReleaseMsg(m)
+	}
+	for i := 0; i < *chain; i++ {
+		m := doUnpack(chainWire(2 + i%40))
+		if m == nil {
+			continue
+		}
+		doPack(m, true, 0)
+		if i%3 == 0 {
+			doPack(m, true, 1232)
+		}
+		dnsmsg.ReleaseMsg(m)
+	}
+	if *chain > 0 {
+		for _, k := range []int{1, 9, 10, 11, 12, 64, 125, 126, 127, 128, 200} {
+			if m := doUnpack(ptrChainWire(k)); m != nil {
+				dnsmsg.ReleaseMsg(m)
+			}
+		}
 	}
 	for i := 0; i < *huge; i++ {
 		m := doUnpack(hugeWire())
